@@ -14,6 +14,8 @@ wrapper is installed at import time in the pytest process and passes every call,
 import functools, json, os
 
 _calls = []
+_dense = []
+_dense_seen = set()
 _depth = [0]
 
 
@@ -80,6 +82,34 @@ def _install():
     if getattr(fggs, 'sum_products', None) is orig:
         fggs.sum_products = wrapper
 
+    # every PatternedTensor the tests densify: its structure (read back) and the dense tensor to_dense() returned, for the
+    # clause "to_dense() is the denotation of the structure" on the patterns and values the tests themselves use
+    from fggs import indices as IX
+    from harness import pt as PT
+    orig_td = IX.PatternedTensor.to_dense
+    busy = [False]
+
+    @functools.wraps(orig_td)
+    def to_dense(self):
+        res = orig_td(self)
+        if busy[0] or len(_dense) >= 600:
+            return res
+        busy[0] = True
+        try:
+            if 0 < res.numel() <= 256 and self.physical.numel() <= 256 and not res.is_complex():
+                rb = PT.readback(self)
+                key = json.dumps([rb['ps'], rb['vs'], rb['d']])
+                if key not in _dense_seen:
+                    _dense_seen.add(key)
+                    _dense.append({'kind': 'dense', 'st': rb, 'rb': rb, 'out': 'ok', 'tag': ['dense', 'repo_tests'],
+                                   'obs': {'shape': [int(x) for x in res.shape], 'flat': PT.enc_tensor(res.detach()), 'dt': str(res.dtype).replace('torch.', '')}})
+        except Exception:
+            pass
+        finally:
+            busy[0] = False
+        return res
+    IX.PatternedTensor.to_dense = to_dense
+
 
 def pytest_configure(config):
     _install()
@@ -96,4 +126,4 @@ def pytest_sessionfinish(session, exitstatus):
     except Exception as e:  # noqa
         pats = [{'error': repr(e)[:200]}]
     with open(out, 'w') as f:
-        json.dump({'solver': _calls, 'patterns': pats}, f)
+        json.dump({'solver': _calls, 'patterns': pats, 'dense': _dense}, f)
